@@ -2222,6 +2222,14 @@ func (l *LanguageServer) handleWorkspaceDidRenameFiles(
 		}
 
 		if l.ignoreURI(renameOp.NewURI) {
+			// for the workspace the file is gone, like a deleted one: other files may have
+			// aggregate violations to add or remove as a result of that
+			l.lintWorkspaceJobs <- lintWorkspaceJob{
+				Reason:              "workspace/didRenameFiles",
+				OverwriteAggregates: false,
+				AggregateReportOnly: true,
+			}
+
 			continue
 		}
 
